@@ -43,6 +43,7 @@ fn gen(rng: &mut Rng) -> Program {
     let nw = rng.range(1, 2) as usize;
     let ns = rng.range(1, 2) as usize;
     let mut uniq = 0;
+    let mut last_val: std::collections::BTreeMap<String, String> = std::collections::BTreeMap::new();
     let mut writers = Vec::new();
     for _ in 0..nw {
         let n = rng.range(1, 6) as usize;
@@ -50,7 +51,12 @@ fn gen(rng: &mut Rng) -> Program {
         for _ in 0..n {
             let key = KEYS[rng.below(2) as usize].to_string();
             uniq += 1;
-            let val = format!("w{}", uniq);
+            // mostly unique values (attributable notifications); sometimes the value the key was given last
+            let val = match last_val.get(&key) {
+                Some(v) if rng.chance(1, 5) => v.clone(),
+                _ => format!("w{}", uniq),
+            };
+            last_val.insert(key.clone(), val.clone());
             ops.push(match rng.below(10) {
                 0..=3 => WOp::Set { key, val },
                 4 | 5 => WOp::SetSafe { key, delta: 0, val },
@@ -371,6 +377,8 @@ fn check(out: &Outcome) -> (Vec<Violation>, bool) {
             let other_shape = if oth.is_empty() { "alone".to_string() } else { oth.join("+") };
             let mut removes_inside = 0u64;
             let mut removes_maybe = 0u64;
+            // writes grouped by the value they store: a value may be written more than once
+            let mut by_value: std::collections::BTreeMap<String, Vec<&WRec>> = std::collections::BTreeMap::new();
             for wr in out.wrecs.iter().filter(|w| w.key == key) {
                 // classification against the intervals
                 let inside = ivs.iter().any(|(_, wret, uinv, _)| wr.invoke > *wret && wr.ret < *uinv);
@@ -387,33 +395,47 @@ fn check(out: &Outcome) -> (Vec<Violation>, bool) {
                 if wr.kind == "increment" {
                     continue; // judged by count below
                 }
-                let n = lines.iter().filter(|l| **l == format!("changed {} {}", key, wr.value)).count();
-                if inside {
+                by_value.entry(wr.value.clone()).or_default().push(wr);
+            }
+            for (value, wrs) in by_value.iter() {
+                let is_inside = |wr: &WRec| ivs.iter().any(|(_, wret, uinv, _)| wr.invoke > *wret && wr.ret < *uinv);
+                let is_touching = |wr: &WRec| ivs.iter().any(|(winv, _, _, uret)| wr.ret > *winv && wr.invoke < *uret);
+                let n = lines.iter().filter(|l| **l == format!("changed {} {}", key, value)).count();
+                let ok: Vec<&&WRec> = wrs.iter().filter(|w| w.ok).collect();
+                let inside_ok = ok.iter().filter(|w| is_inside(w)).count();
+                let touching_ok = ok.iter().filter(|w| is_touching(w)).count();
+                if inside_ok > 0 {
                     nontrivial = true;
                 }
-                if !wr.ok {
+                let wr = wrs[0];
+                let rep = if wrs.len() > 1 { ":repeated-value" } else { "" };
+                if ok.is_empty() {
                     if n > 0 {
-                        viols.push(Violation::new("refused-write-notified", format!("{}:{}", transport, wr.kind), format!("subscriber {} was told about the refused `{} {} .. {}`", si, wr.kind, key, wr.value)));
+                        viols.push(Violation::new("refused-write-notified", format!("{}:{}", transport, wr.kind), format!("subscriber {} was told about the refused `{} {} .. {}`", si, wr.kind, key, value)));
                     }
-                } else if inside && n != 1 {
-                    let clause = if n == 0 { "notification-lost" } else { "notification-duplicated" };
+                } else if n < inside_ok {
                     viols.push(Violation::new(
-                        clause,
-                        format!("{}:{}:{}", transport, wr.kind, other_shape),
+                        "notification-lost",
+                        format!("{}:{}:{}{}", transport, wr.kind, other_shape, rep),
                         format!(
-                            "subscriber {} watched {} during [{:?}] and writer {}'s `{} {} {}` [{}..{}] ran entirely inside, but it got {} notifications (others did: {:?}); its lines: {:?}",
-                            si, key, ivs, wr.writer, wr.kind, key, wr.value, wr.invoke, wr.ret, n, oth, lines
+                            "subscriber {} watched {} during [{:?}] and {} accepted write(s) of value {:?} (first: writer {}'s `{} {} {}` [{}..{}]) ran entirely inside, but it got {} notifications (others did: {:?}); its lines: {:?}",
+                            si, key, ivs, inside_ok, value, wr.writer, wr.kind, key, value, wr.invoke, wr.ret, n, oth, lines
                         ),
                     ));
-                } else if !touching && n > 0 {
-                    let after = ivs.iter().map(|(_, _, _, uret)| *uret).filter(|u| *u < wr.invoke).max();
+                } else if touching_ok == 0 && n > 0 {
+                    let first_inv = ok.iter().map(|w| w.invoke).min().unwrap_or(0);
+                    let after = ivs.iter().map(|(_, _, _, uret)| *uret).filter(|u| *u < first_inv).max();
                     viols.push(Violation::new(
                         "notified-outside-subscription",
                         format!("{}:{}", transport, after.map(|u| unsub_kind(u)).unwrap_or_else(|| "never-watched".into())),
-                        format!("subscriber {} got {} notification(s) for `{} {} {}` [{}..{}] although it was not subscribed then (intervals {:?})", si, n, wr.kind, key, wr.value, wr.invoke, wr.ret, ivs),
+                        format!("subscriber {} got {} notification(s) for `{} {} {}` [{}..{}] although it was not subscribed then (intervals {:?})", si, n, wr.kind, key, value, wr.invoke, wr.ret, ivs),
                     ));
-                } else if n > 1 {
-                    viols.push(Violation::new("notification-duplicated", format!("{}:{}:{}", transport, wr.kind, other_shape), format!("subscriber {} got {} notifications for one `{} {} {}`", si, n, wr.kind, key, wr.value)));
+                } else if n > touching_ok {
+                    viols.push(Violation::new(
+                        "notification-duplicated",
+                        format!("{}:{}:{}{}", transport, wr.kind, other_shape, rep),
+                        format!("subscriber {} got {} notifications for {} accepted write(s) of `{} {} {}` overlapping its subscription; its lines: {:?}", si, n, touching_ok, wr.kind, key, value, lines),
+                    ));
                 }
             }
             let removed_seen = lines.iter().filter(|l| **l == format!("removed {}", key)).count() as u64;
